@@ -1,3 +1,5 @@
+#include <algorithm>
+
 #include <occa/internal/core/device.hpp>
 #include <occa/internal/core/kernel.hpp>
 #include <occa/internal/core/buffer.hpp>
@@ -121,6 +123,18 @@ namespace occa {
 
   void modeDevice_t::removeStreamTagRef(modeStreamTag_t *streamTag) {
     streamTagRing.removeRef(streamTag);
+  }
+
+  void modeDevice_t::addBytesAllocated(const dim_t delta) {
+#if OCCA_THREAD_SHARABLE_ENABLED
+    static mutex_t mutex;
+    mutex.lock();
+#endif
+    bytesAllocated = (udim_t) (((dim_t) bytesAllocated) + delta);
+    maxBytesAllocated = std::max(maxBytesAllocated, bytesAllocated);
+#if OCCA_THREAD_SHARABLE_ENABLED
+    mutex.unlock();
+#endif
   }
 
   void modeDevice_t::finish() const {
